@@ -139,6 +139,7 @@ impl Cfg {
 }
 
 pub const TOPICS: [&str; 3] = ["t0", "t/1", "topic/2"];
+pub const TIGHT_MPS: u32 = 20;
 pub const PAD_AT_LIMIT_MINUS_1: u16 = 0xfffd;
 pub const PAD_AT_LIMIT: u16 = 0xfffe;
 pub const PAD_AT_LIMIT_PLUS_1: u16 = 0xffff;
@@ -160,6 +161,8 @@ pub enum Op {
     PeerAck { nth: u8, how: u8, rc: u8 },
     /// manual PUBREL for the nth exchange that got its PUBREC
     AppPubrel { nth: u8 },
+    /// manual PUBREL carrying a Reason String (v5.0): larger than a tight Maximum Packet Size
+    AppPubrelBig { nth: u8 },
     PeerPub { qos: u8, id: u32, dup: bool, topic: u8, alias: u8, pad: u16 },
     PeerPubrel { id: u32 },
     /// manual PUBACK / PUBREC / PUBCOMP for the nth unanswered inbound packet
@@ -189,6 +192,8 @@ pub enum Op {
     SetChunk { n: u16 },
     /// the following connections are negotiated with / without properties and keep-alive
     SetAlt { on: bool },
+    /// the following connections announce a tight Maximum Packet Size (v5.0) in both directions
+    SetTight { on: bool },
     /// stop workload and faults, complete every exchange, check quiescence
     Drain,
     /// the transport is lost and the application forgets everything a crash would lose:
@@ -226,7 +231,7 @@ pub struct Solo {
     pub ops_done: usize,
     /// the next connections announce no properties and keep-alive 0 (connection-scoped
     /// state of the previous connection must not fill the gaps)
-    pub alt: bool,
+    pub alt: u8,
 }
 
 impl Solo {
@@ -249,7 +254,7 @@ impl Solo {
             faults: Default::default(),
             connects: 0,
             ops_done: 0,
-            alt: false,
+            alt: 0,
         }
     }
 
@@ -438,9 +443,12 @@ impl Solo {
                     return;
                 }
                 let mut p = self.cfg.connect_pkt(*clean);
-                if self.alt {
+                if self.alt == 1 {
                     p.props.clear();
                     p.keep_alive = 0;
+                } else if self.alt == 2 && self.cfg.wire_v == 5 {
+                    p.props.retain(|x| !matches!(x, Prop::MaxPacketSize(_)));
+                    p.props.push(Prop::MaxPacketSize(TIGHT_MPS));
                 }
                 let fresh = self.w.m.st == St::Disc;
                 let before = self.w.step;
@@ -473,8 +481,11 @@ impl Solo {
                     return;
                 }
                 let mut p = self.cfg.connack_pkt(*sp, *rc);
-                if self.alt {
+                if self.alt == 1 {
                     p.props.clear();
+                } else if self.alt == 2 && self.cfg.wire_v == 5 && p.rc_or0() == 0 {
+                    p.props.retain(|x| !matches!(x, Prop::MaxPacketSize(_)));
+                    p.props.push(Prop::MaxPacketSize(TIGHT_MPS));
                 }
                 let was = self.w.m.st;
                 if self.cfg.as_client {
@@ -610,7 +621,7 @@ impl Solo {
                 }
                 self.peer_send(&p);
             }
-            Op::AppPubrel { nth } => {
+            Op::AppPubrel { nth } | Op::AppPubrelBig { nth } => {
                 if self.w.lenient {
                     return;
                 }
@@ -619,7 +630,12 @@ impl Solo {
                     return;
                 }
                 let id = got[*nth as usize % got.len()];
-                self.app_send(&Pkt::new(v, PUBREL).with_id(id));
+                let mut p = Pkt::new(v, PUBREL).with_id(id);
+                if matches!(op, Op::AppPubrelBig { .. }) && v == 5 {
+                    p.rc = Some(0);
+                    p.props.push(Prop::ReasonString("released-by-the-application".into()));
+                }
+                self.app_send(&p);
             }
             Op::PeerPub { qos, id, dup, topic, alias, pad } => {
                 // a server never sends before its CONNACK; a client may pipeline after CONNECT
@@ -834,7 +850,8 @@ impl Solo {
                 self.fault("crash_restart");
             }
             Op::PeerRaw { bytes } => {
-                if !self.peer_up() {
+                let opens = self.w.m.st == St::Disc && !self.cfg.as_client && !self.w.want_close;
+                if !self.peer_up() && !opens {
                     return;
                 }
                 // adversarial traffic: from here on only the model-free oracles decide
@@ -847,7 +864,12 @@ impl Solo {
             }
             Op::SetAlt { on } => {
                 if self.w.m.st == St::Disc {
-                    self.alt = *on;
+                    self.alt = *on as u8;
+                }
+            }
+            Op::SetTight { on } => {
+                if self.w.m.st == St::Disc {
+                    self.alt = if *on { 2 } else { 0 };
                 }
             }
             Op::Drain => self.drain(),
@@ -1038,7 +1060,11 @@ pub fn gen_op(s: &Solo, r: &mut Rng, prof: &GenProfile) -> Op {
                 return if r.chance(1, 2) { Op::Sub } else { Op::Acquire };
             }
             if x < 98 && m.conn_no > 0 {
-                return Op::SetAlt { on: !s.alt };
+                return match r.below(3) {
+                    0 => Op::SetAlt { on: s.alt != 1 },
+                    1 => Op::SetTight { on: s.alt != 2 },
+                    _ => Op::SetAlt { on: false },
+                };
             }
             return Op::Erase { nth: r.below(4) as u8 };
         }
@@ -1157,7 +1183,9 @@ pub fn gen_op(s: &Solo, r: &mut Rng, prof: &GenProfile) -> Op {
             }
             _ => Op::AppAnswer,
         },
-        13 => Op::AppPubrel { nth: r.below(4) as u8 },
+        13 => {
+            if v5 && r.chance(1, 4) { Op::AppPubrelBig { nth: r.below(4) as u8 } } else { Op::AppPubrel { nth: r.below(4) as u8 } }
+        }
         14 => Op::PeerSuback { nth: r.below(4) as u8, wrong: cfg.f_wrongack && r.chance(1, 10) },
         _ => {
             let id = *r.pick(&s.peer_q2);
